@@ -62,7 +62,7 @@ def run_one(m, kind, tier="quick", extra_env=None):
         if kind == "mutant":
             ok = p.returncode == 1 and bool(viol) and not fresh_bad
         else:
-            ok = p.returncode == 0 and not viol
+            ok = p.returncode == 0 and not viol and not (m.get("forbid") and m["forbid"] in p.stdout)
         return {"name": m["name"], "property": m["property"], "status": "ok" if ok else "FAIL",
                 "exit": p.returncode, "clauses": clauses, "wall_s": round(wall, 1),
                 "tail": "" if ok else (p.stdout[-1500:] + p.stderr[-800:])}
